@@ -175,6 +175,9 @@ def check_dot(ctx, prop, exporter_kind, lib, nodes, idmap, names, par, ch, s, st
     if exporter_kind == "dot":
         ex = DotExporter(nodes[s], **kw)
     elif exporter_kind == "unique":
+        if ch[s] and (s + len(stop)) % 2 == 0:
+            ctx.count("%s.other_exporter_numbered_subtree_before" % prop)
+            list(UniqueDotExporter(nodes[ch[s][-1]]))
         ex = UniqueDotExporter(nodes[s], **kw)
     else:
         with warnings.catch_warnings():
